@@ -304,8 +304,13 @@ type reachNode struct {
 }
 
 // reachable lists every node reachable from n through exported fields (n itself first).
+// lastReachShared: how often the last reachable() call met a node pointer it had already listed (the tree is a DAG:
+// the parser shares a derived table between FROM and the left side of the first join)
+var lastReachShared int
+
 func reachable(n ast.Node) []reachNode {
 	var out []reachNode
+	lastReachShared = 0
 	seenPtr := map[interface{}]bool{}
 	var visitStruct func(sv reflect.Value, parent int, ptype string, steps string)
 	var visitSlot func(v reflect.Value, parent int, ptype string, steps string)
@@ -315,6 +320,7 @@ func reachable(n ast.Node) []reachNode {
 		}
 		key := pv.Interface()
 		if seenPtr[key] {
+			lastReachShared++
 			return
 		}
 		seenPtr[key] = true
